@@ -37,6 +37,10 @@ def arith(rng, depth=0):
 def money(rng):
     c = rng.choice(CURRENCIES)
     k = rng.random()
+    if k > 0.9:
+        # magnitude suffix: '2k usd', '$1,5M', '3M try'
+        amt = rng.choice([str(rng.randint(1, 900)), f"{rng.randint(1, 99)},{rng.randint(1, 9)}"]) + rng.choice("kKMG")
+        return ("$" + amt) if (c == "usd" and rng.random() < 0.4) else amt + " " + c
     if k < 0.2 and c == "usd":
         return "$" + num(rng)
     if k < 0.3 and c == "eur":
@@ -67,9 +71,16 @@ def duration(rng):
 
 def clock(rng):
     h, m = rng.randint(0, 23), rng.randint(0, 59)
-    s = f"{h}:{m:02d}"
-    if rng.random() < 0.3:
-        s += f":{rng.randint(0, 59):02d}"
+    k = rng.random()
+    if k < 0.25:
+        # 12-hour forms (1-11 am/pm): 'H:MM am', 'H:MMpm', 'H pm', 'Ham'
+        hh = rng.randint(1, 11)
+        mer = rng.choice(["am", "pm", "AM", "PM"])
+        s = rng.choice([f"{hh}:{m:02d} {mer}", f"{hh}:{m:02d}{mer}", f"{hh} {mer}", f"{hh}{mer}"])
+    else:
+        s = f"{h}:{m:02d}"
+        if rng.random() < 0.3:
+            s += f":{rng.randint(0, 59):02d}"
     if rng.random() < 0.5:
         s += " " + rng.choice(ZONES)
     return s
@@ -89,13 +100,14 @@ def value_line(rng):
     if k < 0.50:
         return rng.choice([num(rng) + " + " + percent(rng), percent(rng) + " of " + num(rng),
                            percent(rng) + " on " + money(rng), percent(rng) + " off " + num(rng),
-                           num(rng) + " is what % of " + num(rng)])
+                           num(rng) + " is what % of " + num(rng), num(rng) + " is " + percent(rng) + " of what",
+                           money(rng) + " - " + percent(rng), money(rng) + " is what % of " + money(rng)])
     if k < 0.60:
-        return date(rng) + rng.choice(["", " + " + duration(rng), " - " + duration(rng)])
+        return date(rng) + rng.choice(["", " + " + duration(rng), " - " + duration(rng), " to " + date(rng), " as unix"])
     if k < 0.70:
         return duration(rng) + rng.choice(["", " + " + duration(rng), " as hours", " as seconds"])
     if k < 0.80:
-        return clock(rng) + rng.choice(["", " + " + duration(rng), " to " + rng.choice(ZONES)])
+        return clock(rng) + rng.choice(["", " + " + duration(rng), " - " + duration(rng), " to " + rng.choice(ZONES), " to " + clock(rng).split(" ")[0]])
     if k < 0.90:
         return unitq(rng) + rng.choice(["", " to " + rng.choice(UNITS), " * 2"])
     return rng.choice(["0x" + format(rng.randint(0, 2**20), "x"), "0b" + format(rng.randint(0, 255), "b"),
